@@ -34,7 +34,7 @@ def main(tier, replay=None):
                         "one waiter per semaphore (nsync uses one semaphore per thread)",
                         "sequentially consistent interleavings of the atomic operations"]
     for ci, c in enumerate(configs(tier)):
-        cfg = os.path.join(BUILD, "tlc", "MC_Sem_%d.cfg" % ci)
+        cfg = os.path.join(WORK, "tlc", "MC_Sem_%d.cfg" % ci)
         write_cfg(cfg, "SpecE", c, ["Conservation", "NoFreeSuccess", "TimeoutHonest", "NoLostPost"],
                   constraints=["InitPrint"], action_constraints=["Edge"])
         g, info = tlcgraph.run_tlc_graph(os.path.join(SPEC, "Sem.tla"), cfg, workers=8, cwd=SPEC)
@@ -43,7 +43,7 @@ def main(tier, replay=None):
                 raise ToolFailure("TLC refuted %s on Sem.tla with the constants of the unmodified design (spec error?)\n%s" % (info["violated"], "\n".join(info["log"][-40:])))
             raise ToolFailure("TLC failed: " + "\n".join(info["log"][-30:]))
         tours = tlcgraph.build_tours(g)
-        sched = os.path.join(BUILD, "tlc", "sem_%d.sched" % ci)
+        sched = os.path.join(WORK, "tlc", "sem_%d.sched" % ci)
         init = " ".join("%s=%s" % (k, int(v) if isinstance(v, bool) else v) for k, v in c.items())
         steps = tlcgraph.write_schedule(sched, g, tours, init)
         res = run_harness(exe, [sched, REPLAYS])
@@ -67,7 +67,7 @@ def main(tier, replay=None):
     if tier == "thorough" or True:
         # liveness under fairness on the smallest timed and untimed configurations
         for c in configs("quick")[:1] + configs("quick")[2:3]:
-            cfg = os.path.join(BUILD, "tlc", "MC_Sem_live.cfg")
+            cfg = os.path.join(WORK, "tlc", "MC_Sem_live.cfg")
             write_cfg(cfg, "FairSpecE", c, [], props=["WaiterReturns"])
             info = tlc_plain(os.path.join(SPEC, "Sem.tla"), cfg, workers=4)
             if not info["ok"]:
